@@ -286,6 +286,39 @@ pub fn respelt_template(rng: &mut Rng, inner: Vec<u8>) -> Vec<u8> {
     v
 }
 
+/// an intact template instance followed by a PUSHDATA opcode whose length field is cut off by the end
+/// of the script (the last token does not tokenise, so the whole script is no template instance)
+pub fn cut_length_field_tail(rng: &mut Rng, inner: Vec<u8>) -> Vec<u8> {
+    let mut v = inner;
+    match rng.below(6) {
+        0 => v.push(0x4c),
+        1 => v.push(0x4d),
+        2 => v.extend_from_slice(&[0x4d, rng.next() as u8]),
+        3 => v.push(0x4e),
+        4 => v.extend_from_slice(&[0x4e, rng.next() as u8, rng.next() as u8]),
+        _ => v.extend_from_slice(&[0x4e, rng.next() as u8, rng.next() as u8, rng.next() as u8]),
+    }
+    v
+}
+
+/// an intact template instance behind so many complete extra tokens (OP_0 / small pushes) that the script
+/// has exactly `total` tokens: matchers that pack or index tokens have their edge at a token count
+pub fn padded_to_token_count(rng: &mut Rng, inner: Vec<u8>, total: usize) -> Vec<u8> {
+    let have = boundaries(&inner).map(|b| b.len() - 1).unwrap_or(total);
+    let mut v = Vec::new();
+    for _ in have..total {
+        match rng.below(3) {
+            0 | 1 => v.push(0x00),
+            _ => {
+                let n = rng.usize(1, 20);
+                v.extend(push(&rng.bytes(n)));
+            }
+        }
+    }
+    v.extend(inner);
+    v
+}
+
 /// an intact template instance behind exactly one extra leading opcode
 pub fn one_opcode_prefix(rng: &mut Rng, inner: Vec<u8>) -> Vec<u8> {
     let mut v = vec![*rng.pick(&[0x00u8, 0x51, 0x61, 0x75, 0x76, 0x6a, 0x4f, 0x60, 0x69, 0xb1])];
@@ -425,9 +458,17 @@ pub fn fork_scripts(rng: &mut Rng, n: usize) -> Vec<Vec<u8>> {
             out.push(wrapped_template(rng, inner));
             continue;
         }
-        if rng.chance(1, 25) {
+        if rng.chance(1, 15) {
             let inner = template(rng.below(5), *rng.pick(&[0u8, 0, 1]), rng);
-            out.push(if rng.coin() { respelt_template(rng, inner) } else { one_opcode_prefix(rng, inner) });
+            out.push(match rng.below(4) {
+                0 => respelt_template(rng, inner),
+                1 => one_opcode_prefix(rng, inner),
+                2 => cut_length_field_tail(rng, inner),
+                _ => {
+                    let total = *rng.pick(&[7usize, 8, 8, 9, 15, 16, 17, 31, 32, 33, 63, 64, 65]);
+                    padded_to_token_count(rng, inner, total)
+                }
+            });
             continue;
         }
         if rng.chance(1, 16) {
@@ -621,9 +662,17 @@ pub fn bitcoin_scripts(rng: &mut Rng, n: usize) -> Vec<Vec<u8>> {
             out.push(wrapped_template(rng, inner));
             continue;
         }
-        if rng.chance(1, 25) {
+        if rng.chance(1, 15) {
             let inner = canon(rng);
-            out.push(if rng.coin() { respelt_template(rng, inner) } else { one_opcode_prefix(rng, inner) });
+            out.push(match rng.below(4) {
+                0 => respelt_template(rng, inner),
+                1 => one_opcode_prefix(rng, inner),
+                2 => cut_length_field_tail(rng, inner),
+                _ => {
+                    let total = *rng.pick(&[7usize, 8, 8, 9, 15, 16, 17, 31, 32, 33, 63, 64, 65]);
+                    padded_to_token_count(rng, inner, total)
+                }
+            });
             continue;
         }
         if rng.chance(1, 20) {
